@@ -396,6 +396,35 @@ class Summary:
                 per_loop[key[0]] = k_ + 1
                 cvnum[ident] = f"{key[0]}.{k_}"        # numbered within their own loop: what other loops carry does not matter
         self.cvnum = cvnum
+        # liveness of loop-carried values: one that nothing but its own update ever reads (a temporary that happens to be assigned
+        # under a condition) is not part of what the function computes
+        def carried_in(t):
+            return {(x[1], digest(x[2]) if len(x) > 2 else None) for x in walk(t) if x[0] == 'carried'}
+        bodies, roots = {}, set()
+        for ev in r.events:
+            if ev.kind == 'carry':
+                ident = (ev.data[0][1], digest(ev.data[0][2]) if len(ev.data[0]) > 2 else None)
+                bodies.setdefault(ident, set()).update(carried_in(ev.data[1]) - {ident})
+            elif ev.kind not in _SKIP:
+                for d in ev.data:
+                    if isinstance(d, tuple):
+                        roots |= carried_in(d)
+                for c, _ in ev.conds:
+                    if isinstance(c, tuple):
+                        roots |= carried_in(c)
+        for p_ in f.params:
+            v = r.env.get(p_)
+            if isinstance(v, tuple):
+                roots |= carried_in(v)
+        for t, conds, _ in r.calls:
+            roots |= carried_in(t)
+        live_carried, todo = set(), list(roots)
+        while todo:
+            x = todo.pop()
+            if x in live_carried:
+                continue
+            live_carried.add(x)
+            todo.extend(bodies.get(x, ()))
         for ev in r.events:
             k = ev.kind
             if k in _SKIP:
@@ -416,8 +445,10 @@ class Summary:
                 data = d[0] if d[0] is not None else ('const', 'while')
             elif k == 'carry':
                 # a name that every iteration defines before using it is not loop-carried: what it held before the loop is dead
-                live = any(x is d[0] or x == d[0] for x in walk(d[1]))
-                data = ('tuple', (d[0], d[1])) if live else ('tuple', (('const', 'defined-in-body'), d[1]))
+                ident = (d[0][1], digest(d[0][2]) if len(d[0]) > 2 else None)
+                if ident not in live_carried:
+                    continue            # never read except by its own update; a use after the loop carries the value itself
+                data = ('tuple', (d[0], d[1]))
             elif k in ('return', 'raise', 'expr', 'while_test', 'yield'):
                 data = d[0] if d[0] is not None else ('const', None)
             elif k == 'handler':
